@@ -9,7 +9,7 @@ import simpy
 
 from .common import HarnessError
 
-DELAYS = [0, 0.5, 1, 1.3, 2, 0.7]
+DELAYS = [0, 0.5, 1, 1.3, 2 ** 0.5, 1.0 / 3.0]
 DTS = [1, 0.5, 0.3, 2, 0.7, 1.0 / 3.0, 2 ** 0.5, 3]
 KINDS = ["a", "b", "c"]
 MAX_EVENTS_PER_INSTANT = 5000
@@ -65,6 +65,26 @@ class Tok:
 
 
 # -------------------------------------------------------------------------------------------------
+_TOTE = []
+
+
+def _tote_class():
+    """a user-defined flow item with container semantics: an Item subclass whose len() is the number of parts it holds -
+    none at the moment, so the object is falsy"""
+    if not _TOTE:
+        from factorysimpy.helper.item import Item
+
+        class Tote(Item):
+            def __init__(self, id):
+                super().__init__(id)
+                self.parts = []
+
+            def __len__(self):
+                return len(self.parts)
+        _TOTE.append(Tote)
+    return _TOTE[0]
+
+
 class Subject:
     """Uniform adapter over the store classes / edges."""
 
@@ -357,6 +377,8 @@ class StoreRun:
         if self.case["subject"].get("pallets"):
             from factorysimpy.helper.pallet import Pallet
             it = Pallet("i%d" % self.serial)
+        elif self.case["subject"].get("totes"):
+            it = _tote_class()("i%d" % self.serial)
         else:
             it = Item("i%d" % self.serial)
         it.kind = kind
